@@ -851,7 +851,15 @@ class ReadParquetPyarrowFS(ReadParquet):
     def _get_lengths(self):
         # TODO: Filters that only filter partition_expr can be used as well
         if not self.filters:
-            return tuple(stats["num_rows"] for stats in self.aggregated_statistics)
+            # statistics come in file-listing order; partitions follow the
+            # (possibly sorted) fragment order and the partition selection
+            lengths = [stats["num_rows"] for stats in self.aggregated_statistics]
+            sort_index = self._fragment_sort_index()
+            if sort_index is not None:
+                lengths = [lengths[i] for i in sort_index]
+            if self._filtered:
+                lengths = [lengths[i] for i in self._partitions]
+            return tuple(lengths)
 
     @cached_property
     def _dataset_info(self):
@@ -1316,12 +1324,9 @@ class ReadParquetFSSpec(ReadParquet):
     def _get_lengths(self) -> tuple | None:
         """Return known partition lengths using parquet statistics"""
         if not self.filters:
+            # restricted to the selected partitions already
             self._update_length_statistics()
-            return tuple(
-                length
-                for i, length in enumerate(self._pq_length_stats)
-                if not self._filtered or i in self._partitions
-            )
+            return tuple(self._pq_length_stats)
         return None
 
     def _update_length_statistics(self):
